@@ -37,7 +37,8 @@ MANIFEST = {
     "note": "Trusted: Coq kernel + vm_compute; translators/tr_timestamp_src.py (fail-closed ast translator); the hand model is tied "
             "to /repo by a correspondence run on every check (boundary-biased datetimes, dates, fixed and zoneinfo (variable, DST, "
             "fold) UTC offsets, timestamp strings incl. lenient spellings and near-misses, STIXdatetime values re-used across "
-            "precisions, values copied/deep-copied/pickled between cleaning and writing); quick: ~15 k cases through vm_compute; "
+            "precisions, values copied/deep-copied/pickled between cleaning and writing; ~3 k of the cases again in workers whose "
+            "process time zone is TZ=JST-9 / EST5EDT, which must give identical answers); quick: ~15 k cases through vm_compute; "
             "thorough: ~1 M cases through the model extracted to OCaml (extract/c15) with a 20 k sample also through vm_compute. "
             "CPython datetime/zoneinfo/strptime/strftime are modelled or used as given, not verified: zone conversion itself is "
             "outside the model (it starts from local fields + the true offset computed by the harness). Oracle-only: nothing; "
